@@ -51,6 +51,13 @@ CHECKS['C20'] = dict(
         'Distance queries compare the values the real unit code reports in the query unit.',
    ref='3/C20')
 
+CHECKS['C09'] = dict(
+   text='Real calculate_curve + _calculate_by_curve_and_mach_list on a symbolic Mach number for the 9 shipped tables (every path of the binary search; exact rational Lagrange oracle; node values, positivity, 5% of the chord) '
+        'and on fully symbolic custom tables (symbolic nodes and CDs: parabola identity as a cleared polynomial identity, selection observed through a pass-through list); drag_by_mach with symbolic BC; table structure and pinned digest.',
+   note='Mach in [0,10] for shipped tables; custom tables n <= 5 quick / 7 thorough nodes. Floats as reals, 1e-9 absolute against exact parabolas. "Published tables" = SHA-256 of the pinned tables (ref/tables.json); '
+        'no publication is available offline. rho_std = 0.076474 lb/ft^3, constant at 1e-5 relative.',
+   ref='3/C09')
+
 NOT_YET = {}
 
 def main():
